@@ -18,6 +18,10 @@ type c03Case struct {
 	Internal [][]string `json:"internal"` // subscriptions of the internal extensions i1, i2
 	Order    []string   `json:"order"`    // linear order of the events: "E<k>.reg", "E<k>.next", "I<k>.reg", "I<k>.next", "R.next", "INV"
 	QuietMs  int        `json:"quietMs"`  // the last event of Order is held back for this long
+	// Second: the judged initialisation is that of a second execution environment - a first one (same extensions, plain
+	// scripts) initialised completely and lost its runtime in its first invocation. The second environment is started
+	// inside the judged invocation, so INV comes first in Order.
+	Second bool `json:"second,omitempty"`
 }
 
 func (c *c03Case) extNames() []string {
@@ -95,6 +99,13 @@ func (c *c03Case) scenario() *Scenario {
 		sc.Driver = append(sc.Driver, Step{Op: "ext.register", Name: names[0], Events: []string{"INVOKE"}, Tag: "late.external"})
 	}
 	sc.Driver = append(sc.Driver, Step{Op: "invoke", Tag: "G", Payload: &kit.Blob{Len: 11, Seed: 4, Kind: "ascii"}})
+	if c.Second {
+		for k, n := range names {
+			sc.Actors["ext:"+n] = append([]Script{{Steps: []Step{{Op: "ext.loop", Events: c.Subs[k]}}}}, sc.Actors["ext:"+n]...)
+		}
+		sc.Actors["runtime"] = append([]Script{{Steps: []Step{{Op: "rt.next"}, {Op: "sleep", Ms: 30}, {Op: "exit", Code: 1}}}}, sc.Actors["runtime"]...)
+		sc.Driver = append([]Step{{Op: "invoke", Tag: "pre", Payload: &kit.Blob{Len: 6, Seed: 9, Kind: "ascii"}}}, sc.Driver...)
+	}
 	return sc
 }
 
@@ -155,12 +166,28 @@ func c03Check(c c03Case) (out kit.Outcome) {
 			return out
 		}
 	}
+	// the judged initialisation: everything after the first environment's invocation was answered (or from the start)
+	var from int64
+	gen := "#0"
+	if c.Second {
+		out.Label("second-environment")
+		out.Nontrivial = out.Nontrivial || parties >= 1
+		pre := tr.invokeReturn("pre")
+		if pre == nil {
+			out.Violate("C03/no-outcome", "the first environment's invocation has no outcome")
+			return out
+		}
+		if pre.Status == 200 {
+			out.Label("first-environment-did-not-fail")
+		}
+		from, gen = pre.Seq, "#1"
+	}
 	// (a) exactly the non-directory entries are launched, once, by base name
 	launched := map[string]int{}
 	var rtExec *Event
 	for i := range tr.Events {
 		e := &tr.Events[i]
-		if e.Kind != "sup.exec" {
+		if e.Kind != "sup.exec" || e.Seq < from {
 			continue
 		}
 		if strings.HasPrefix(e.Proc, "runtime-") {
@@ -170,7 +197,7 @@ func c03Check(c c03Case) (out kit.Outcome) {
 			continue
 		}
 		base := strings.TrimPrefix(roleOf(e.Proc), "ext:")
-		if gen1 := strings.HasSuffix(e.Proc, "-1"); gen1 {
+		if judged := strings.HasSuffix(e.Proc, "-1") || c.Second; judged && (rtExec == nil || !c.Second) {
 			launched[base]++
 			if e.Path != "/opt/extensions/"+base {
 				out.Violate("C03/launch-path", "extension %s launched from %q", base, e.Path)
@@ -199,7 +226,7 @@ func c03Check(c c03Case) (out kit.Outcome) {
 	firstNextIssue := map[string]int64{}
 	for i := range tr.Events {
 		e := &tr.Events[i]
-		if e.Call == "ext.register" && e.Kind == "issue" && strings.HasPrefix(e.Actor, "ext:") && e.Seq > rtExec.Seq && strings.HasSuffix(e.Actor, "#0") {
+		if e.Call == "ext.register" && e.Kind == "issue" && strings.HasPrefix(e.Actor, "ext:") && e.Seq > rtExec.Seq && strings.HasSuffix(e.Actor, gen) {
 			out.Violate("C03/runtime-started-early", "the runtime was started (seq %d) before %s had even asked to register (seq %d)", rtExec.Seq, e.Actor, e.Seq)
 			return out
 		}
@@ -212,7 +239,7 @@ func c03Check(c c03Case) (out kit.Outcome) {
 	var ps []party
 	for i := range tr.Events {
 		e := &tr.Events[i]
-		if e.Kind == "return" && e.Call == "ext.register" && e.Status == 200 && e.Actor != "driver" {
+		if e.Kind == "return" && e.Call == "ext.register" && e.Status == 200 && e.Actor != "driver" && e.Seq > from {
 			name := e.Headers["Lambda-Extension-Identifier"] // unique per accepted registration
 			accepted[name] = true
 		}
@@ -231,7 +258,7 @@ func c03Check(c c03Case) (out kit.Outcome) {
 	var rNext int64
 	for i := range tr.Events {
 		e := &tr.Events[i]
-		if isRuntimeActor(e.Actor) && e.Kind == "issue" && e.Call == "rt.next" {
+		if isRuntimeActor(e.Actor) && e.Kind == "issue" && e.Call == "rt.next" && e.Seq > from {
 			rNext = e.Seq
 			break
 		}
@@ -239,7 +266,7 @@ func c03Check(c c03Case) (out kit.Outcome) {
 	var firstDelivery *Event
 	for i := range tr.Events {
 		e := &tr.Events[i]
-		if e.Kind != "return" || e.Status != 200 {
+		if e.Kind != "return" || e.Status != 200 || e.Seq < from {
 			continue
 		}
 		isEvent := (e.Call == "rt.next" && isRuntimeActor(e.Actor)) || (e.Call == "ext.next" && strings.Contains(e.Text, `"INVOKE"`))
@@ -408,6 +435,17 @@ func c03Gen(t *rapid.T) c03Case {
 	e := c.Order[i]
 	c.Order = append(append(c.Order[:i:i], c.Order[i+1:]...), e)
 	c.QuietMs = rapid.IntRange(40, 150).Draw(t, "quiet")
+	if rapid.IntRange(0, 3).Draw(t, "second") == 0 {
+		// judged in a second execution environment, which is started inside the invocation: INV comes first
+		c.Second = true
+		var o []string
+		for _, e := range c.Order {
+			if e != "INV" {
+				o = append(o, e)
+			}
+		}
+		c.Order = append([]string{"INV"}, o...)
+	}
 	return c
 }
 
@@ -416,6 +454,8 @@ func c03Fixed() []c03Case {
 		{Dir: []DirEntry{{Name: "a", Kind: "file"}, {Name: "d", Kind: "dir"}}, Subs: [][]string{{"INVOKE"}}, Internal: [][]string{{"INVOKE"}},
 			Order: []string{"INV", "E0.reg", "I0.reg", "R.next", "I0.next", "E0.next"}, QuietMs: 60},
 		{Dir: []DirEntry{{Name: "f", Kind: "fifo"}, {Name: "l", Kind: "dangling"}, {Name: "s", Kind: "socket"}}, Subs: [][]string{{"INVOKE"}, {}, {"INVOKE", "SHUTDOWN"}}, Order: []string{"E1.reg", "E0.reg", "E2.reg", "R.next", "E2.next", "INV", "E0.next", "E1.next"}, QuietMs: 60},
+		{Second: true, Dir: []DirEntry{{Name: "a", Kind: "file"}, {Name: "b", Kind: "file"}}, Subs: [][]string{{"INVOKE"}, {"INVOKE", "SHUTDOWN"}}, Internal: [][]string{{"INVOKE"}},
+			Order: []string{"INV", "E1.reg", "E0.reg", "I0.reg", "R.next", "E1.next", "I0.next", "E0.next"}, QuietMs: 80},
 		{Dir: []DirEntry{{Name: ".hidden", Kind: "file"}, {Name: "b", Kind: "symlink"}}, Subs: [][]string{{}, {"SHUTDOWN"}},
 			Order: []string{"E1.reg", "E0.reg", "E0.next", "E1.next", "INV", "R.next"}, QuietMs: 60},
 		{Order: []string{"R.next", "INV"}, QuietMs: 40},
